@@ -467,7 +467,9 @@ func init() {
 				}
 			}
 			vs, _ := ref.PrintVal(val)
-			nopts := []int{0, 1, 2, 3, 4, 5, 6, 7, 8, 30, len(vs) - 1, len(vs), len(vs) + 1, utf8.RuneCountInString(vs), utf8.RuneCountInString(vs) - 1, utf8.RuneCountInString(vs) + 2}
+			nopts := []int{0, 1, 2, 3, 4, 5, 6, 7, 8, 30, len(vs) - 1, len(vs), len(vs) + 1, utf8.RuneCountInString(vs), utf8.RuneCountInString(vs) - 1, utf8.RuneCountInString(vs) + 2,
+				// limits far beyond any value: the value comes back unchanged (and nothing overflows on the way)
+				1 << 31, 1<<32 + 1, 1 << 53, 1 << 62, math.MaxInt64 - 300, math.MaxInt64}
 			ns := []int{nopts[r.Intn(len(nopts))]}
 			if d.needsN && (i < nsys || r.P(1, 4)) && len(vs) < 200 {
 				ns = nopts // every boundary argument for this (value, directive)
